@@ -209,8 +209,9 @@ func (e *engine) runPair(j job, budget time.Duration, jobSeed int64) {
 			}
 			cfg := genConfigFor(round)
 			cfg.PresentProb = 0.75
-			V2 := val.RandomRecord(r.valueRng(di, round), env2, di, cfg)
-			vs2 := V2.String()
+			raw2 := val.RandomRecord(r.valueRng(di, round), env2, di, cfg)
+			V2 := val.StripDeprecated(env2, schema.Ty{K: schema.TyRef, Ref: di}, raw2) // v2 never writes its deprecated fields
+			vs2 := raw2.String()
 			rm, err := d2.Do(fmt.Sprintf("marshal %d %s", di, vs2))
 			if err != nil {
 				e.note("driver of %s died: %v", p2.ID, err)
@@ -367,7 +368,7 @@ func die(format string, args ...interface{}) {
 func main() {
 	seed := flag.Int64("seed", 1, "random seed")
 	tier := flag.String("tier", "quick", "quick|thorough")
-	model := flag.String("model", "", "path of the bebop-model binary (empty or missing: run without the model)")
+	model := flag.String("model", "", "path of the bebop-model binary, optionally followed by arguments (empty or missing: run without the model)")
 	work := flag.String("work", "/verif/.work/wire", "work directory (packages are emitted under <work>/pkgs)")
 	out := flag.String("out", "", "results file (default <work>/results.json)")
 	propsFlag := flag.String("props", "", "comma separated properties (default all)")
@@ -404,7 +405,7 @@ func main() {
 	}
 	e.coll = newCollector(propList)
 	if *model != "" {
-		if _, err := os.Stat(*model); err != nil {
+		if _, err := os.Stat(strings.Fields(*model)[0]); err != nil {
 			fmt.Printf("wire: model %s not found: running WITHOUT the model (oracle checks only)\n", *model)
 		} else {
 			e.modelPath = *model
@@ -437,7 +438,7 @@ func main() {
 	}
 	base := append([]pkgbuild.Options{pkgbuild.OptionsFromBits(0), pkgbuild.OptionsFromBits(31)}, pick2()...)
 	e.rounds, e.corruptions, e.hugePercent, e.maxHeavyLen, e.fullCutLen = 100000, 5, 10, 4096, 256
-	e.pairRounds = 60
+	e.pairRounds = 200
 	e.maxBad = 40
 	if *tier == "quick" {
 		gridSets, randSets, pairSets = base, base, base[:2]
@@ -449,7 +450,7 @@ func main() {
 		}
 		randSets, pairSets = base, base
 		e.corruptions, e.hugePercent = 8, 15
-		e.pairRounds = 250
+		e.pairRounds = 800
 		e.maxBad = 80
 	}
 	if *budgetFlag > 0 {
